@@ -69,6 +69,7 @@ class Interp:
 
     def __init__(self, env, call_hook=None, on_store=None, loop_hook=None, strict=False, name_hook=None, attr_hook=None):
         self.attr_hook = attr_hook  # attribute of a modelled object that is not stored on it (a @property of its class)
+        self.str_hook = None  # text of a modelled object (its class's __str__/__repr__); set by the object-model runner
         self.name_hook = name_hook  # resolves free names / attributes of free names (class references, builtins) or returns NotImplemented
         self.strict = strict  # concrete evaluation: a failed lookup is the program's own KeyError/IndexError, not a missing domain
         self.env = dict(env)
@@ -174,7 +175,9 @@ class Interp:
                     spec = ""
                     if v.format_spec is not None:
                         spec = self.ev(v.format_spec)
-                    if v.conversion == ord("s"):
+                    if isinstance(val, dict) and _is_object(val) and self.str_hook is not None:
+                        val = self.str_hook(val, "repr" if v.conversion == ord("r") else "str", v)
+                    elif v.conversion == ord("s"):
                         val = str(val)
                     elif v.conversion == ord("r"):
                         val = repr(val)
@@ -306,6 +309,8 @@ class Interp:
             args = [self.ev(a) for a in node.args]
             if any(isinstance(a, Unknown) for a in args):
                 return Unknown(name)
+            if name == "str" and len(args) == 1 and isinstance(args[0], dict) and _is_object(args[0]) and self.str_hook is not None:
+                return self.str_hook(args[0], "str", node)
             try:
                 return {"str": str, "int": int, "float": float, "len": len, "bool": bool, "abs": abs}[name](*args)
             except (ValueError, TypeError) as exc:
